@@ -26,6 +26,9 @@ RULE = ('M1: every sequence of <=2 (quick) / <=3 (thorough) AddSegment/RemoveSeg
         'transition days; IsInside probed at every range boundary +-1 s and on a 30-minute grid; '
         'm2-month-name: every form that names a month, seen from windows in the named month, the month before/after, at month ends and around Feb 28/29 of 2034/2035/2036; '
         'm2-nth-transition: n-th weekday searches walking over every transition day of every zone; m2-mktime: libc mktime against the table model before/at/inside/after every skipped and repeated hour; '
+        'm2-range-list: one day, 2-4 ranges of one comma-separated list in every relative position (disjoint, adjacent, overlapping, nested, identical, nested ending/beginning together, three- and four-level nesting, outer with several inner) x every written order (all permutations up to 3 ranges, 6 of 24 for 4 in the quick tier) x {within the day, across midnight (wrap form or hour >= 24), ending at 24:00} x {one key, weekday + date key sharing the list, a referencing period with included/excluded periods whose lists nest likewise}; '
+        'm2-rolling: 48-72 h of the REAL TimePeriod::UpdateTimerHandler() after Start() (5-minute rounds around every local midnight, 15 min - 2 h steps and one stall of 5-9 h in between), the referencing period created (= updated in every round) before, between or after the periods it includes/excludes, those with ranges running past midnight; every round judged at every probe from one hour before the round up to valid_end; '
+        'the probes of every calendar case contain both boundaries of every written range (+-1 s) and the middle of every gap between consecutive boundaries - the oracle recomputes that list from the written ranges and refuses to decide otherwise; '
         'm2-parse-*: 126 hand-made corner strings and mutated printed strings through config validation (accepted/rejected, code against the parser model), odd but accepted strings evaluated. '
         'non-trivial = at least one observed state with a segment and both inside and outside probes; distinct = distinct script text')
 TRUSTED = ['model: coq/Tp/TpModel.v (transcription of timeperiod.cpp 41-301), coq/Tp/TpCal.v (transcription of legacytimeperiod.cpp '
@@ -37,7 +40,8 @@ TRUSTED = ['model: coq/Tp/TpModel.v (transcription of timeperiod.cpp 41-301), co
 ASSUMPTIONS = ['times are whole seconds (exact in binary64)',
                'local midnight exists exactly once on every day the loops ask about (true for the four zones used; checked by computation per case: tp_cal_hyps_ok)',
                'range boundaries are local times that exist exactly once on the days of the window (the property\'s own restriction); generated time-of-day boundaries avoid 01:00-03:00 in zones with DST',
-               'periods referenced by includes/excludes are updated before the referencing period, for the same window',
+               'single-window families: periods referenced by includes/excludes are updated before the referencing period, for the same window; family m2-rolling: any order, the statement then refers to the referenced periods as they were at the last round that recomputed (C08_rolling_updates)',
+               'rolling updates (hypotheses of C08_rolling_updates, not proved for the calendar function, exercised by m2-rolling): referenced periods have no includes/excludes of their own (their inside sets only grow), ranges begin within their day and end at most 48 h after its 00:00',
                'numbers in generated strings stay below 2^31 in magnitude except for the listed overflow probes; n-th weekday numbers stay small (the search is linear in n); huge negative month days (boost::gregorian range errors) are not generated']
 
 MONTHS = ['january', 'february', 'march', 'april', 'may', 'june', 'july', 'august', 'september', 'october', 'november', 'december']
@@ -1187,22 +1191,23 @@ def classify(case, detail, impl_lines):
 
 
 def _canon_segs(field, vb, ve):
-    """segments as a set of instants inside the valid window: drop empty ones, clip to [valid_begin, valid_end]
-    (IsInside ignores the segments outside it), sort, merge overlapping/adjacent.  The array representation
-    (order, merged or not, remains before valid_begin after a purge) is not part of the property; the IsInside
-    bits and the window are."""
-    if field == '-':
-        return '-'
+    """the state as the function IsInside that the API shows: segments as a set of instants inside the valid window (drop
+    empty ones, clip to [valid_begin, valid_end] - IsInside ignores what lies outside -, sort, merge overlapping/adjacent),
+    and a stretch of "inside" that begins exactly at valid_begin is indistinguishable from valid_begin lying at its end
+    (before valid_begin everything is inside), so valid_begin is moved there.  The array representation (order, merged
+    or not, remains before valid_begin after a purge, whether a segment reaching back before the computed region moved
+    valid_begin) is not part of the property; the IsInside bits are.  -> (segments, valid_begin)"""
     segs = []
-    for sg in field.split(','):
-        i = sg.index('-', 1)
-        b, e = int(sg[:i]), int(sg[i + 1:])
-        if vb is not None:
-            b = max(b, vb)
-        if ve is not None:
-            e = min(e, ve + 1)
-        if b < e:
-            segs.append((b, e))
+    if field != '-':
+        for sg in field.split(','):
+            i = sg.index('-', 1)
+            b, e = int(sg[:i]), int(sg[i + 1:])
+            if vb is not None:
+                b = max(b, vb)
+            if ve is not None:
+                e = min(e, ve + 1)
+            if b < e:
+                segs.append((b, e))
     segs.sort()
     out = []
     for b, e in segs:
@@ -1210,7 +1215,10 @@ def _canon_segs(field, vb, ve):
             out[-1] = (out[-1][0], max(out[-1][1], e))
         else:
             out.append((b, e))
-    return ','.join('%d-%d' % x for x in out) or '-'
+    if vb is not None and ve is not None and out and out[0][0] <= vb:
+        vb = out[0][1]
+        out = out[1:]
+    return (','.join('%d-%d' % x for x in out) or '-'), vb
 
 
 def canon(lines):
@@ -1226,7 +1234,8 @@ def canon(lines):
             kv = dict(x.split('=', 1) for x in tail.split(' ') if '=' in x)
             vb = int(kv['vb']) if kv.get('vb', '-') != '-' else None
             ve = int(kv['ve']) if kv.get('ve', '-') != '-' else None
-            l = '%s segs=%s %s' % (pre, _canon_segs(f, vb, ve), tail)
+            sg, vb2 = _canon_segs(f, vb, ve)
+            l = '%s segs=%s vb=%s ve=%s in=%s' % (pre, sg, '-' if vb2 is None else vb2, kv.get('ve', '-'), kv.get('in', '-'))
         res.append(l)
     return res
 
@@ -1268,7 +1277,18 @@ def extra_stats(cases, impl):
         }
     mrel = collections.Counter(c['tags'].get('month_rel') for c in cases if c['tags'].get('family') == 'm2-month-name')
     mform = collections.Counter(c['tags'].get('month_form') for c in cases if c['tags'].get('family') == 'm2-month-name')
+    rl = [c for c in cases if c['tags'].get('family') == 'm2-range-list']
+    ro = [c for c in cases if c['tags'].get('family') == 'm2-rolling']
     return {'zones': dict(zones), 'windows_on_dst_transition_days': trw,
+            'range_list_family': {'cases': len(rl), 'by_configuration': dict(collections.Counter(c['tags']['list_config'] for c in rl)),
+                                  'by_variant': dict(collections.Counter(c['tags']['list_variant'] for c in rl)),
+                                  'by_placement': dict(collections.Counter(c['tags']['list_mode'] for c in rl)),
+                                  'with_a_range_nested_in_another_and_ending_earlier': sum(1 for c in rl if c['tags'].get('list_nested_ending_earlier'))},
+            'rolling_family': {'cases': len(ro), 'timer_rounds': sum(c['tags']['roll_rounds'] for c in ro),
+                               'hours_per_case': dict(collections.Counter(c['tags']['roll_hours'] for c in ro)),
+                               'referencing_period_updated': dict(collections.Counter(c['tags']['roll_order'] for c in ro)),
+                               'shapes': dict(collections.Counter(c['tags']['roll_shape'] for c in ro)),
+                               'walking_over_a_dst_transition': sum(1 for c in ro if c['tags'].get('roll_crosses_transition'))},
             'compared_only_per_zone': {
                 'what': 'not covered by a theorem and therefore aimed at every transition of every zone that has one: mktime for local times '
                         'inside a skipped / repeated hour (libc primed with the local time two days earlier, against tp_tab_mk); proved only under '
